@@ -69,6 +69,14 @@ def run(ctx):
         elif not any(k.endswith("__api.json") for k in o["files"]) or not any(k.endswith(".sdsstub") for k in o["files"]):
             violations.append({"what": f"CLI run completed without writing the API file and stub files under {opts}", "package": p.name,
                                "options": opts, "files": None, "finding": None})
+    # termination and totality of the docstring type translation (a loop over `a | b | c` chains lives there)
+    import doctypes
+    d_dis, d_vio, d_n, _ = doctypes.run_l0(ctx["seed"], tier)
+    violations += d_vio
+    for dd in d_dis:
+        if isinstance(dd.get("impl"), list) and dd["impl"][:1] == ["exc"]:
+            violations.append({"what": f"the translation of the docstring type {dd['case']} raises {dd['impl'][1]}", "finding": None})
+    res["evaluations"] += d_n
     res["violations"] = violations
     res["evaluations"] += ncli
     res["distinct_nontrivial"] += ncli
